@@ -195,6 +195,81 @@ func ruleMergeConfigs(c *Ctx, r *Repo, cp *packages.Package) {
 		c.Fail("R08.1", "mergeConfigs|field-loop", r.Pos(fd.Pos()), "no loop over 0..NumField() of the struct's fields")
 		return
 	}
+	// a map-typed local that was just seen to be nil must not be handed to the key-wise merge as it is: the
+	// merge stores into it (a nil map: panic) instead of into the map installed in the destination field
+	// (mechanical-mutation finding: the re-read after installing a fresh map was deleted unnoticed)
+	for _, g := range familyOf(cp, fd) {
+		ast.Inspect(g.Body, func(n ast.Node) bool {
+			blk, ok := n.(*ast.BlockStmt)
+			if !ok {
+				return true
+			}
+			for i, st := range blk.List {
+				is, ok := st.(*ast.IfStmt)
+				if !ok || is.Else != nil {
+					continue
+				}
+				be, ok := ast.Unparen(is.Cond).(*ast.BinaryExpr)
+				if !ok || be.Op != token.EQL || !isNilIdent(info, be.Y) {
+					continue
+				}
+				id, ok := ast.Unparen(be.X).(*ast.Ident)
+				if !ok || info.Uses[id] == nil {
+					continue
+				}
+				obj := info.Uses[id]
+				if _, isMap := obj.Type().Underlying().(*types.Map); !isMap {
+					continue
+				}
+				repaired := false
+				ast.Inspect(is.Body, func(m ast.Node) bool {
+					switch w := m.(type) {
+					case *ast.AssignStmt:
+						for _, l := range w.Lhs {
+							if lid, ok := ast.Unparen(l).(*ast.Ident); ok && info.Uses[lid] == obj {
+								repaired = true
+							}
+						}
+					case *ast.ReturnStmt:
+						repaired = true
+					case *ast.BranchStmt:
+						repaired = true
+					}
+					return true
+				})
+				if repaired {
+					continue
+				}
+				// first thing that happens to the variable afterwards
+			scan:
+				for _, later := range blk.List[i+1:] {
+					if as, ok := later.(*ast.AssignStmt); ok {
+						for _, l := range as.Lhs {
+							if lid, ok := ast.Unparen(l).(*ast.Ident); ok && info.Uses[lid] == obj {
+								break scan // re-read or replaced before use
+							}
+						}
+					}
+					bad := false
+					ast.Inspect(later, func(m ast.Node) bool {
+						if call, ok := m.(*ast.CallExpr); ok && strings.HasSuffix(calleeName(info, call), "config.mergeStringMaps") {
+							for _, a := range call.Args {
+								if aid, ok := ast.Unparen(a).(*ast.Ident); ok && info.Uses[aid] == obj {
+									bad = true
+								}
+							}
+						}
+						return true
+					})
+					if bad {
+						c.Fail("R08.1", "mergeConfigs|nil-map-merged-into", r.Pos(later.Pos()), "a map that was just seen to be nil is handed to mergeStringMaps unchanged: the inherited keys are stored into a nil map (panic) instead of the map installed in the destination field")
+						break scan
+					}
+				}
+			}
+			return true
+		})
+	}
 	d := newDT(info)
 	// the per-field work and its tests may sit in private helpers (mergeField, isUnset, ..): followed;
 	// mergeStringMaps has its own rule
@@ -795,6 +870,60 @@ func ruleLayering(c *Ctx, r *Repo, cp *packages.Package) {
 			}
 			return true
 		})
+	}
+	// the environment transformer hands every MOCKERY_* variable on, under its normalised key (round 6: a
+	// transformer that dropped the variables it did not find among the defaults lost every parameter without a
+	// default when a second edit removed those from the defaults)
+	{
+		nTr := 0
+		for _, g := range pkgFuncDecls(cp) {
+			ast.Inspect(g.Body, func(n ast.Node) bool {
+				call, ok := n.(*ast.CallExpr)
+				if !ok || !strings.HasSuffix(calleeName(info, call), "providers/env.ProviderWithValue") || len(call.Args) != 3 {
+					return true
+				}
+				var params *ast.FieldList
+				var body *ast.BlockStmt
+				switch f := ast.Unparen(call.Args[2]).(type) {
+				case *ast.FuncLit:
+					params, body = f.Type.Params, f.Body
+				case *ast.Ident:
+					if fn, ok := info.Uses[f].(*types.Func); ok {
+						if h := pkgFuncs(cp)[fn]; h != nil {
+							params, body = h.Type.Params, h.Body
+						}
+					}
+				}
+				if body == nil {
+					c.Fail("R08.5", "env-transformer|shape", r.Pos(call.Pos()), "the environment transformer is neither a function literal nor a function of the package")
+					return true
+				}
+				nTr++
+				d := newDT(info)
+				st := &dtPath{env: map[types.Object]string{}}
+				i := 0
+				for _, f := range params.List {
+					for _, nm := range f.Names {
+						st.env[info.Defs[nm]] = []string{"KEY", "VALUE"}[min(i, 1)]
+						i++
+					}
+				}
+				d.paths = nil
+				d.stmts(st, body.List, func(p *dtPath) { d.finish(p, "end") })
+				for _, p := range d.paths {
+					if p.Exit == "panic" {
+						continue
+					}
+					okKey := p.Exit == "return" && len(p.Ret) == 2 && strings.Contains(p.Ret[0], `strings.TrimPrefix(KEY, "MOCKERY_")`) && strings.Contains(p.Ret[0], "strings.ToLower(") && strings.Contains(p.Ret[0], `"_", "-"`)
+					c.Check(okKey, "R08.5", "env-transformer|key", r.Pos(call.Pos()), "every variable is handed on under its normalised key", "the environment transformer does not hand a MOCKERY_* variable on under its normalised key (prefix stripped, lower case, _ -> -) on path "+p.String()+": the setting is dropped or lands under another key")
+					if okKey {
+						c.Check(p.Ret[1] != "nil" && p.Ret[1] != `""`, "R08.5", "env-transformer|value", r.Pos(call.Pos()), "the variable's value is handed on", "the environment transformer drops the variable's value on path "+p.String())
+					}
+				}
+				return true
+			})
+		}
+		c.Check(nTr == 1, "R08.5", "env-transformer|sites", r.Pos(fd.Pos()), "one environment provider", fmt.Sprintf("%d environment providers with a transformer found, expected one", nTr))
 	}
 	// NewDefaultKoanf loads the defaults through the structs provider
 	if nd := FuncDecl(cp, "NewDefaultKoanf"); nd != nil {
